@@ -3,7 +3,7 @@ import re
 from ..engines import e2_errflow as e2
 from ..lib.cfgq import switch_edges, dominating_guards, natural_loops
 from ..lib.facts import is_callee, callee_fn, sp_str
-from ..lib.trace import Tracer, canon, canon_full, strip, walk, inline_local_calls
+from ..lib.trace import Tracer, canon, canon_full, strip, walk, inline_local_calls, upvar_origin
 
 LEVEL_TEXT = ("Error-context discipline on the MIR: (a) wherever a statement handler is run from a loop over a block's statements, its result "
               "passes through with_context with a context built from the executing context's error_context before `?` (strict: stanza, scan "
@@ -20,6 +20,7 @@ LEVEL_TEXT += (" Every local binding in lazy mode goes through store.add (a thun
 
 LEVEL_TEXT += (" The evaluation of a scoped definition's scope inside LazyScopedVariables::force is wrapped with that definition's stored debug info.")
 LEVEL_TEXT += (' StatementContext.statement / .statement_location are written only from a statement of the running block (new, update_statement, or the spelled-out pair); (E2.x-h) an ExecutionError is formatted only by the display code of error.rs.')
+LEVEL_TEXT += (' A one-sided conflict context is used only when no previous writer is recorded.')
 WC = r"ResultWithExecutionError<R>>::with_context$|ResultWithExecutionError::with_context$"
 
 
@@ -255,6 +256,30 @@ def run(prog, rep):
             chain = with_context_chain(prog, body, tr, b)
             if any(c and re.match(ctx_pat, c) for c in chain):
                 good += 1
+        if good != count and len(calls) == count and fn == "evaluate" and ty.endswith("LazyStatement"):
+            # each arm pairs its result with its own statement's debug info, one with_context after the match:
+            # `let (result, debug_info) = match self { V(stmt) => (stmt.evaluate(exec), &stmt.debug_info), .. }; result.with_context(|| debug_info.clone().into())`
+            for wb, wt in body.calls():
+                if not is_callee(wt, WC):
+                    continue
+                a0 = canon_full(tr.operand(wt["args"][0]))
+                cl = strip(tr.operand(wt["args"][1]))
+                m0 = re.match(r"^phi\((.*)\)\.0$", a0)
+                if not m0 or not (cl[0] == "agg" and cl[1] == "closure" and cl[2] in prog.fns):
+                    continue
+                ctxc = canon_full(Tracer(prog.fns[cl[2]].body).local(0))
+                if not re.match(r"^Into::into\(Clone::clone\(&\**upvar:(_ref__)?debug_info\)\)$", ctxc):
+                    continue
+                origin = upvar_origin(prog, prog.fns[cl[2]], ("upvar", "_ref__debug_info"), 0) if "_ref__" in ctxc else upvar_origin(prog, prog.fns[cl[2]], ("upvar", "debug_info"), 0)
+                oc = canon_full(origin) if origin is not None else ""
+                # the closure's captured debug_info is the second half of the same tuple
+                if not (oc.endswith(".1") and oc[:-2].lstrip("&*") == a0[:-2]):
+                    continue
+                from .C18 import split_alts
+                pairs = split_alts(m0.group(1))
+                okp = [re.match(r"^tuple\{Lazy\w+::evaluate\(&\(\*arg:self as (\w+)\)\.0, &\*arg:exec\), &\(\*arg:self as (\w+)\)\.0\.debug_info\}$", pr) for pr in pairs]
+                if len(pairs) == count and all(m_ and m_.group(1) == m_.group(2) for m_ in okp):
+                    good = count
         rep.check(good == count and len(calls) == count, "E2.x-d", "%s :: evaluation re-attaches origin" % f.id, f.loc(), "%d deferred evaluation(s) wrapped with the stored debug info" % good,
                   "%d of %d deferred evaluations are wrapped with their stored origin" % (good, len(calls)))
         if fn in ("evaluate", "evaluate_all") and ty.endswith("LazyStore"):
@@ -279,6 +304,17 @@ def run(prog, rep):
                         ne += 1
                         c = ctx_of_closure(prog, tr.operand(t["args"][1])) or ""
                         pair = re.search(r"Into::into\(tuple\{", c) is not None
+                        # ... and the one-sided form is used only when no previous writer is recorded (`prev_debug_info` is None):
+                        # no other test decides how many statements a conflict names
+                        cl0 = strip(tr.operand(t["args"][1]))
+                        if pair and cl0[0] == "agg" and cl0[1] == "closure" and cl0[2] in prog.fns:
+                            cfn = prog.fns[cl0[2]]
+                            ctr2 = Tracer(cfn.body)
+                            for cb in sorted(cfn.body.reachable()):
+                                for g2 in switch_edges(cfn.body, ctr2, cb):
+                                    cc2 = canon(g2.cond)
+                                    if not (re.match(r"^\**upvar:(_ref__)?prev_debug_info$", cc2) and g2.variant in ("Some", "None")) and not cc2.startswith("Try::branch("):
+                                        pair = False
                         both = "prev_debug_info" in c and ("debug_info" in c.replace("prev_debug_info", ""))
                         rep.check(pair and both, "E2.x-e", "%s :: %s names both statements #%d" % (f.id, inner[3], ne), sp_str(t["sp"]), "context = (previous statement, this statement)",
                                   "a conflict is reported with `%s`: the two conflicting statements are not both named" % c[:120])
